@@ -25,28 +25,71 @@ type Solver struct {
 	lastSat bool
 	witness *witness
 	Witnessed int
+	Restarts  int
 	aux     *Solver
 	bin     string
 	stack   []*Term
 	marks   []int
 }
 
+var solverLogs int
+
 func NewSolver(bin string) *Solver {
-	cmd := exec.Command(bin, "-in")
+	s := &Solver{bin: bin}
+	if lf := os.Getenv("SYMGO_SOLVER_LOG"); lf != "" {
+		solverLogs++
+		s.log, _ = os.Create(fmt.Sprintf("%s.%d", lf, solverLogs))
+	}
+	s.start()
+	return s
+}
+
+func (s *Solver) start() {
+	cmd := exec.Command(s.bin, "-in")
 	in, _ := cmd.StdinPipe()
 	out, _ := cmd.StdoutPipe()
 	cmd.Stderr = cmd.Stdout
 	if err := cmd.Start(); err != nil {
 		panic(err)
 	}
-	s := &Solver{cmd: cmd, in: in, out: bufio.NewReader(out), bin: bin}
-	if lf := os.Getenv("SYMGO_SOLVER_LOG"); lf != "" {
-		s.log, _ = os.Create(lf)
-	}
+	s.cmd, s.in, s.out = cmd, in, bufio.NewReader(out)
+	s.defined, s.stack, s.marks = 0, nil, nil
 	s.send("(set-option :print-success false)")
 	s.send("(set-option :timeout 10000)")
 	s.send("(set-option :global-decls true)") // definitions survive pop: every term is sent exactly once
-	return s
+}
+
+// checkWall is the wall-clock limit of one check-sat: z3's own :timeout is not honoured inside every tactic (nlsat can run
+// for an hour on one query). When it passes, the solver process is killed and a fresh one started (every term is then
+// defined again on demand); the query counts as "unknown", which the caller reports as an incomplete result.
+var checkWall = 40 * time.Second
+
+// readAnswer reads the answer to a check-sat under the wall-clock limit
+func (s *Solver) readAnswer() string {
+	type ans struct {
+		l   string
+		err error
+	}
+	ch := make(chan ans, 1)
+	out := s.out
+	go func() {
+		l, err := out.ReadString('\n')
+		ch <- ans{l, err}
+	}()
+	select {
+	case a := <-ch:
+		if a.err != nil {
+			panic("solver died: " + a.err.Error())
+		}
+		return strings.TrimSpace(a.l)
+	case <-time.After(checkWall):
+		s.cmd.Process.Kill()
+		s.cmd.Wait()
+		<-ch
+		s.Restarts++
+		s.start()
+		return "unknown-walltime"
+	}
 }
 
 func (s *Solver) send(line string) {
@@ -149,10 +192,13 @@ func (s *Solver) Check(ts []*Term) string {
 	} else {
 		s.send("(check-sat)")
 	}
-	r := s.readLine()
-	if hasReal && r != "sat" && r != "unsat" {
+	r := s.readAnswer()
+	if hasReal && r != "sat" && r != "unsat" && r != "unknown-walltime" {
 		s.send("(check-sat)")
-		r = s.readLine()
+		r = s.readAnswer()
+	}
+	if r == "unknown-walltime" {
+		r = "unknown"
 	}
 	if r != "sat" && r != "unsat" && hasReal {
 		// last resort: the assertions that are purely about Reals (and Boolean variables) alone, in a separate solver
@@ -373,7 +419,10 @@ func (s *Solver) auxUnsat(ts []*Term) bool {
 		return false
 	}
 	a.send("(check-sat-using (then simplify solve-eqs qfnra-nlsat))")
-	r := a.readLine()
+	r := a.readAnswer()
+	if r == "unknown-walltime" {
+		return false // the auxiliary process was restarted: nothing to pop
+	}
 	a.send("(pop 1)")
 	return r == "unsat"
 }
